@@ -1,5 +1,852 @@
-//! C17 — not built yet.
+//! C17 — font-metric arithmetic: fix_word text, store_scaled, table compression, next-larger chains.
+//! Engine: BEX (bounded exhaustive enumeration, four parts). DESIGN.md §3 C17.
+//!
+//! Part 1  fix_word text   Display (TFtoPL §40-43) and the PL reader (PLtoTF §62-66), through whole property
+//!                         lists: `pl::File{params}.display()` -> text -> `pl::File::from_pl_source_code`.
+//! Part 2  to_scaled       against TeX §568/§571-572 `store_scaled`.
+//! Part 3  compress        against the brute-force minimal tolerance (PLtoTF §75-80).
+//! Part 4  next larger     against TFtoPL §84 (cut at the largest character of every cycle).
+
+use reftex::fix::{self, NlWarning};
+use serde_json::{json, Value};
+use std::collections::BTreeMap;
+use tfm::{Char, FixWord, NextLargerProgram, NextLargerProgramWarning};
+use vcore::{catch, Acc, Ctx, Level};
+
+// ------------------------------------------------------------------------------------------------
+// ranges of 32-bit patterns
+// ------------------------------------------------------------------------------------------------
+
+fn merge(mut r: Vec<(u64, u64)>) -> Vec<(u64, u64)> {
+    r.sort();
+    let mut out: Vec<(u64, u64)> = vec![];
+    for (a, b) in r {
+        if let Some(l) = out.last_mut() {
+            if a <= l.1 {
+                l.1 = l.1.max(b);
+                continue;
+            }
+        }
+        out.push((a, b));
+    }
+    out
+}
+fn total(r: &[(u64, u64)]) -> u64 {
+    r.iter().map(|(a, b)| b - a).sum()
+}
+fn nth(r: &[(u64, u64)], mut idx: u64) -> u32 {
+    for (a, b) in r {
+        if idx < b - a {
+            return (a + idx) as u32;
+        }
+        idx -= b - a;
+    }
+    unreachable!("index outside the ranges")
+}
+
+const ALL: u64 = 1 << 32;
+
+/// Half-open ranges of u32 bit patterns for the fix_word text sweep.
+fn text_ranges(quick: bool) -> Vec<(u64, u64)> {
+    if !quick {
+        return vec![(0, ALL)];
+    }
+    // |x| < 2^24 (every value that is legal as a font dimension, |x| < 16.0) ...
+    let mut r = vec![(0, 1 << 24), (ALL - (1 << 24), ALL)];
+    // ... and windows of +-4096 around +-2^k up to the ends of the 32-bit range
+    for k in 24..=31u32 {
+        let p = 1u64 << k;
+        r.push((p.saturating_sub(4096), (p + 4096).min(ALL)));
+        let q = ALL - p;
+        r.push((q.saturating_sub(4096), (q + 4096).min(ALL)));
+    }
+    // ... and around multiples of 100.0 / 1000.0 / 2047.0 (integer parts with 3 and 4 digits)
+    for v in [100i64, 999, 1000, 2046, 2047] {
+        for s in [1i64, -1] {
+            let c = ((s * v) << 20) as i32 as u32 as u64;
+            r.push((c.saturating_sub(4096), (c + 4096 + (1 << 20)).min(ALL)));
+        }
+    }
+    merge(r)
+}
+
+// ------------------------------------------------------------------------------------------------
+// Part 1: fix_word text
+// ------------------------------------------------------------------------------------------------
+
+const BATCH: u64 = 254; // PARAMETER numbers 1..=254
+
+/// The texts after " R " inside the FONTDIMEN list of a printed property list, in order.
+fn fontdimen_reals(pl: &str) -> Vec<&str> {
+    let Some(start) = pl.find("(FONTDIMEN") else { return vec![] };
+    let mut out = vec![];
+    let mut rest = &pl[start..];
+    while let Some(i) = rest.find(" R ") {
+        rest = &rest[i + 3..];
+        let end = rest.find(')').unwrap_or(rest.len());
+        out.push(rest[..end].trim_end());
+        rest = &rest[end..];
+    }
+    out
+}
+
+/// One property list holding the patterns `bits[..]` as parameters 1..=n.
+fn check_fix_batch(idx: u64, bits: &[u32], acc: &mut Acc) {
+    let first = bits[0];
+    let case = |bad: Option<u32>| json!({"kind": "fixbatch", "first": first, "count": bits.len(), "bits": bad, "value": bad.map(|b| format!("FixWord({})", b as i32))});
+    // model
+    let texts: Vec<String> = bits.iter().map(|b| fix::print_fix(*b as i32)).collect();
+    let mut outside = false;
+    for (b, t) in bits.iter().zip(&texts) {
+        let x = *b as i32;
+        acc.eval();
+        if x & 0xfffff != 0 {
+            acc.nontrivial();
+        }
+        if fix::text_used_rounding_branch(t) {
+            acc.count("seven_digit_fraction");
+        }
+        if x < 0 && x & 0xfffff != 0 {
+            acc.count("negative_with_fraction");
+        }
+        if (x as i64).abs() >= 16 << 20 {
+            acc.count("beyond_16");
+        }
+        match fix::parse_fix(t) {
+            Ok(v) if v == x as i64 => {}
+            Err(fix::FixErr::TooBig) if x == i32::MIN => outside = true,
+            other => {
+                // the reference programs themselves would not round-trip: that is a model defect
+                acc.fail(idx, case(Some(*b)), format!("{x}"), format!("{other:?}"), format!("MODEL: PLtoTF §62-66 applied to TFtoPL §40-43 text {t:?} does not give the value back"));
+                return;
+            }
+        }
+    }
+    // 1a: Display of every value
+    let shown = catch(|| bits.iter().map(|b| FixWord(*b as i32).to_string()).collect::<Vec<String>>());
+    let shown = match shown {
+        Ok(s) => s,
+        Err(p) => {
+            acc.fail(idx, case(None), "text", p.describe(), "FixWord Display panicked");
+            return;
+        }
+    };
+    for ((b, want), got) in bits.iter().zip(&texts).zip(&shown) {
+        if want != got {
+            acc.fail(idx, case(Some(*b)), want.clone(), got.clone(), "FixWord Display differs from TFtoPL §40-43 out_fix");
+            return;
+        }
+    }
+    // 1b: through a whole property list
+    let r = catch(|| {
+        let file = tfm::pl::File { params: bits.iter().map(|b| FixWord(*b as i32)).collect(), ..Default::default() };
+        let text = format!("{}", file.display(3, tfm::pl::CharDisplayFormat::Default));
+        let (back, warnings) = tfm::pl::File::from_pl_source_code(&text);
+        let kinds: Vec<String> = warnings.iter().map(|w| format!("{:?}", w.kind)).collect();
+        (text, back.params, kinds)
+    });
+    let (text, params, warnings) = match r {
+        Ok(v) => v,
+        Err(p) => {
+            acc.fail(idx, case(if outside { Some(i32::MIN as u32) } else { None }), "a property list and its parse", p.describe(), "printing or parsing the property list panicked");
+            return;
+        }
+    };
+    let reals = fontdimen_reals(&text);
+    if reals.len() != bits.len() {
+        acc.fail(idx, case(None), format!("{} reals in FONTDIMEN", bits.len()), format!("{} reals: {}", reals.len(), vcore::clip(&text, 300)), "printed property list has the wrong number of parameters");
+        return;
+    }
+    for ((b, want), got) in bits.iter().zip(&texts).zip(&reals) {
+        if want != got {
+            acc.fail(idx, case(Some(*b)), want.clone(), got.to_string(), "text in the printed property list differs from TFtoPL §40-43");
+            return;
+        }
+    }
+    if params.len() != bits.len() {
+        acc.fail(idx, case(None), format!("{} parameters", bits.len()), format!("{} parameters", params.len()), "parsed property list has the wrong number of parameters");
+        return;
+    }
+    for (b, got) in bits.iter().zip(&params) {
+        let x = *b as i32;
+        if x == i32::MIN {
+            // -2048.0 is outside the PL format (PLtoTF: "Real constants must be less than 2048"); only "no panic" is required
+            acc.class(&format!("outside the format: -2048.0 read back as {} with warnings {:?}", got.0, warnings));
+            continue;
+        }
+        if got.0 != x {
+            acc.fail(idx, case(Some(*b)), format!("{x}"), format!("{} (text {:?})", got.0, fix::print_fix(x)), "the PL reader does not return the fix_word that was printed");
+            return;
+        }
+    }
+    if !outside && !warnings.is_empty() {
+        acc.fail(idx, case(None), "no warnings", format!("{warnings:?}"), "the PL reader warns about a property list the printer produced");
+        return;
+    }
+    acc.class(if outside { "batch with -2048.0" } else { "batch round-trips" });
+    for t in &texts {
+        let digits = t.split('.').nth(1).map(|f| f.len()).unwrap_or(0);
+        acc.class(&format!("fraction digits={digits}"));
+    }
+}
+
+// ------------------------------------------------------------------------------------------------
+// Part 2: to_scaled
+// ------------------------------------------------------------------------------------------------
+
+fn check_scaled(idx: u64, x: i32, ds: i32, acc: &mut Acc) {
+    acc.eval();
+    let want = match fix::store_scaled(x, ds) {
+        Ok(w) => w,
+        Err(_) => {
+            acc.skipped += 1; // TeX aborts: outside the property's "legal ranges"
+            return;
+        }
+    };
+    if x & 0xffffff != 0 {
+        acc.nontrivial();
+    }
+    if x < 0 {
+        acc.count("scaled_negative_value");
+    }
+    if ds >= 128 << 20 {
+        acc.count("scaled_z_normalised");
+    }
+    let case = || json!({"kind": "scaled", "x": x, "design_size": ds});
+    match catch(|| FixWord(x).to_scaled(FixWord(ds)).0) {
+        Err(p) => acc.fail(idx, case(), format!("{want}"), p.describe(), "to_scaled panicked inside TeX's legal ranges"),
+        Ok(got) => {
+            if got as i64 != want {
+                acc.fail(idx, case(), format!("{want} sp"), format!("{got} sp"), "to_scaled differs from TeX §571-572 store_scaled");
+            }
+        }
+    }
+}
+
+/// Legal values (first byte 0 or 255) with every other byte on a boundary.
+fn value_lattice() -> Vec<i32> {
+    let bs = [0u8, 1, 2, 15, 16, 127, 128, 129, 254, 255];
+    let mut v = vec![];
+    for a in [0u8, 255] {
+        for b in bs {
+            for c in bs {
+                for d in bs {
+                    v.push(i32::from_be_bytes([a, b, c, d]));
+                }
+            }
+        }
+    }
+    for x in [349526, 174763, 116509, 451470, 1048579, -291272, -334963, 81557] {
+        v.push(x); // cmr10
+    }
+    v.sort();
+    v.dedup();
+    v
+}
+
+/// Design sizes in [1pt, 2048pt): every multiple of 1/16 pt, +-{0,1,15,16,17} around every power of two,
+/// and the sizes named in the design.
+fn design_lattice() -> Vec<i32> {
+    let mut v: Vec<i64> = vec![];
+    let mut m = 1i64 << 20;
+    while m < 1 << 31 {
+        v.push(m);
+        m += 1 << 16;
+    }
+    for k in 20..=31 {
+        for d in [-17i64, -16, -15, -1, 0, 1, 15, 16, 17] {
+            v.push((1i64 << k) + d);
+        }
+    }
+    for (int, frac_millionths) in [(1i64, 0i64), (5, 0), (10, 0), (12, 0), (17, 280000), (127, 990000), (2047, 990000), (2047, 999999)] {
+        v.push((int << 20) + (frac_millionths << 20) / 1_000_000);
+    }
+    let mut v: Vec<i32> = v.into_iter().filter(|x| *x >= 1 << 20 && *x < 1 << 31).map(|x| x as i32).collect();
+    v.sort();
+    v.dedup();
+    v
+}
+
+fn sweep_design_sizes(quick: bool) -> Vec<i32> {
+    let ten = 10 << 20;
+    let s1728 = (17 << 20) + ((28i64 << 20) / 100) as i32;
+    let big = i32::MAX - 5; // 2047.99999 pt: z needs four halvings
+    if quick {
+        return vec![ten, s1728, big];
+    }
+    let mut v = vec![1 << 20, (1 << 20) + 16, 5 << 20, ten, (10 << 20) + 15, 12 << 20, s1728, (127 << 20) + 1038090, (128 << 20) - 16, 128 << 20, (128 << 20) + 32, (255 << 20) + 999, 256 << 20, (300 << 20) + 7777, 512 << 20, (1000 << 20) + 123456, 1024 << 20, (2047 << 20) + 1038090, big, i32::MAX];
+    v.sort();
+    v.dedup();
+    v
+}
+
+// ------------------------------------------------------------------------------------------------
+// Part 3: compress
+// ------------------------------------------------------------------------------------------------
+
+fn check_compress(idx: u64, values: &[i64], max: u8, acc: &mut Acc, case: &dyn Fn() -> Value) {
+    acc.eval();
+    let sorted = fix::sorted_distinct(values);
+    let n = sorted.len();
+    let m = max as usize;
+    let best = fix::min_tolerance(&sorted, m).expect("limit >= 1");
+    // model-side facts
+    if n > m {
+        acc.nontrivial();
+        acc.count("compression_needed");
+        if best & 1 == 1 {
+            acc.count("tolerance_odd");
+        }
+        let pl = fix::pltotf_compress(&sorted, m);
+        let gr = fix::greedy_compress(&sorted, m).unwrap();
+        if pl.tolerance != best {
+            acc.fail(idx, case(), format!("{best}"), format!("{}", pl.tolerance), "MODEL: PLtoTF §76 shorten and the brute-force minimal tolerance disagree");
+            return;
+        }
+        if pl.reps != gr.reps {
+            acc.count("pltotf_excess_rule_matters");
+        }
+    }
+    if values.len() != n {
+        acc.count("duplicates_in_input");
+    }
+    let fw: Vec<FixWord> = values.iter().map(|v| FixWord(*v as i32)).collect();
+    let (table, map) = match catch(|| tfm::compress(&fw, max)) {
+        Ok(r) => r,
+        Err(p) => {
+            acc.fail(idx, case(), "a table and an index map", p.describe(), "compress panicked");
+            return;
+        }
+    };
+    let tdesc = || format!("table={:?} map={:?}", table.iter().map(|f| f.0).collect::<Vec<_>>(), { let mut m: Vec<(i32, u8)> = map.iter().map(|(k, v)| (k.0, v.get())).collect(); m.sort(); m });
+    if table.is_empty() || table[0] != FixWord::ZERO {
+        acc.fail(idx, case(), "table[0] = 0", tdesc(), "the reserved zero entry is missing");
+        return;
+    }
+    let classes = table.len() - 1;
+    if classes > m {
+        acc.fail(idx, case(), format!("at most {m} classes"), tdesc(), "more classes than allowed");
+        return;
+    }
+    if map.len() != n {
+        acc.fail(idx, case(), format!("{n} keys"), tdesc(), "the index map does not have exactly the distinct input values as keys");
+        return;
+    }
+    let mut lo = vec![i64::MAX; classes + 1];
+    let mut hi = vec![i64::MIN; classes + 1];
+    for v in &sorted {
+        let Some(k) = map.get(&FixWord(*v as i32)).map(|k| k.get() as usize) else {
+            acc.fail(idx, case(), format!("an index for {v}"), tdesc(), "input value missing from the index map");
+            return;
+        };
+        if k > classes {
+            acc.fail(idx, case(), format!("index <= {classes}"), tdesc(), "index outside the table");
+            return;
+        }
+        lo[k] = lo[k].min(*v);
+        hi[k] = hi[k].max(*v);
+        // every value within half the minimal tolerance of its representative; an odd tolerance has no
+        // integer midpoint, so the achievable bound is (best+1)/2
+        let rep = table[k].0 as i64;
+        if 2 * (*v - rep).abs() > best + (best & 1) {
+            acc.fail(idx, case(), format!("|{v} - rep| <= {best}/2 (minimal tolerance {best})"), format!("rep={rep}; {}", tdesc()), "a value is farther than half the minimal tolerance from its class representative");
+            return;
+        }
+    }
+    let spread = (1..=classes).filter(|k| lo[*k] <= hi[*k]).map(|k| hi[k] - lo[k]).max().unwrap_or(0);
+    if spread != best {
+        acc.fail(idx, case(), format!("tolerance {best} (smallest d whose greedy cover has <= {m} classes)"), format!("largest class spread {spread}; {}", tdesc()), "the tolerance used is not the smallest possible");
+        return;
+    }
+    // how does the table relate to PLtoTF's own table?
+    if n <= m {
+        let want: Vec<i64> = std::iter::once(0).chain(sorted.iter().copied()).collect();
+        if table.iter().map(|f| f.0 as i64).collect::<Vec<_>>() != want {
+            acc.fail(idx, case(), format!("{want:?}"), tdesc(), "no compression was needed but the table is not the sorted distinct input");
+            return;
+        }
+        acc.class("no compression needed");
+    } else {
+        let got: Vec<i64> = table[1..].iter().map(|f| f.0 as i64).collect();
+        let pl = fix::pltotf_compress(&sorted, m);
+        let gr = fix::greedy_compress(&sorted, m).unwrap();
+        let rel = if got == pl.reps {
+            "table = PLtoTF's"
+        } else if got.len() == gr.reps.len() && got.iter().zip(&gr.reps).all(|(a, b)| (a - b).abs() <= 1) {
+            "table = full greedy cover (PLtoTF stops merging when `excess` reaches 0) or midpoint rounded the other way"
+        } else {
+            "table = another minimal-tolerance partition"
+        };
+        acc.class(&format!("compressed, classes={} of {m}: {rel}", classes.min(20)));
+    }
+}
+
+const LAT7: [i64; 7] = [0, 1, 2, 5, 6, 20, -3];
+const TRANSFORMS: [(i64, i64); 5] = [(1, 0), (1, -7), (3, -20), (65537, -(1 << 23)), (2, 1)];
+
+fn subset_lattices() -> [Vec<i64>; 2] {
+    // contiguous integers (every composition of gaps) and a spread-out lattice (Fibonacci gaps)
+    [(0..24).collect(), vec![0, 1, 2, 3, 5, 8, 13, 21, 34, 55, 89, 144, 233, 377, 610, 987, 1597, 2584, 4181, 6765, 10946, 17711, 28657, 46368]]
+}
+
+/// Deterministic families of 256..=300 values (|v| < 16.0).
+fn large_family(shape: u64, n: u64) -> Vec<i64> {
+    (0..n as i64)
+        .map(|i| match shape {
+            0 => i * 1000,                                  // arithmetic progression
+            1 => i * i,                                     // growing gaps
+            2 => (i / 10) * 10_000 + (i % 10),              // clusters of ten
+            3 => (i * 7919) % 1009 - 500,                   // scattered, duplicates collapse
+            4 => -(1 << 24) + i * 111_111,                  // from the negative end of the legal range
+            5 => if i % 2 == 0 { i } else { (1 << 24) - 1 - i }, // two far clusters
+            6 => (i * i * i) % 100_003 - 50_000,
+            7 => 1 << (i % 24),                             // powers of two, many duplicates
+            8 => i * (i % 3 + 1),                           // irregular small gaps
+            _ => (i - 150) * (i - 150) * 3 - (i % 5),       // parabola: each value met twice, minus jitter
+        })
+        .collect()
+}
+const SHAPES: u64 = 10;
+
+// ------------------------------------------------------------------------------------------------
+// Part 4: next larger
+// ------------------------------------------------------------------------------------------------
+
+const CODES: [u8; 7] = [0, 3, 65, 127, 128, 254, 255];
+
+fn check_next_larger(idx: u64, n: usize, f: &[u64], mask: u64, drop: bool, reversed: bool, acc: &mut Acc) {
+    acc.eval();
+    let masked = n.min(4);
+    let exists_i = |i: usize| i >= masked || mask >> i & 1 == 1;
+    // domain: links leave existing characters only
+    if (0..n).any(|i| f[i] != 0 && !exists_i(i)) {
+        acc.skipped += 1;
+        return;
+    }
+    let exists = |c: u8| CODES[..n].iter().position(|x| *x == c).map(exists_i).unwrap_or(true);
+    let mut link: [Option<u8>; 256] = [None; 256];
+    let mut edges: Vec<(Char, Char)> = vec![];
+    for i in 0..n {
+        if f[i] != 0 {
+            let to = CODES[f[i] as usize - 1];
+            link[CODES[i] as usize] = Some(to);
+            edges.push((Char(CODES[i]), Char(to)));
+        }
+    }
+    if reversed {
+        edges.reverse();
+    }
+    let (g, mut mw) = fix::next_larger(&link, &exists, drop);
+    // model-side facts
+    let cycles = mw.iter().filter(|w| matches!(w, NlWarning::Cycle { .. })).count();
+    let nonex = mw.iter().filter(|w| matches!(w, NlWarning::NonExistent { .. })).count();
+    if cycles >= 1 {
+        acc.count("nl_cycle");
+    }
+    if cycles >= 2 {
+        acc.count("nl_two_cycles");
+    }
+    if nonex >= 1 {
+        acc.count("nl_nonexistent_target");
+    }
+    if mw.iter().any(|w| matches!(w, NlWarning::Cycle { original, next_larger } if original != next_larger)) && (0..n).any(|i| f[i] != 0 && g[CODES[i] as usize].is_some() && fix::chain(&g, CODES[i]).iter().any(|c| g[*c as usize].is_none() && link[*c as usize].is_some())) {
+        acc.count("nl_path_into_cut_cycle");
+    }
+    let probe: Vec<u8> = CODES[..n].iter().copied().chain([200u8]).collect();
+    let want: Vec<Vec<u8>> = probe.iter().map(|c| fix::chain(&g, *c)).collect();
+    if want.iter().any(|c| c.len() >= 2) || !mw.is_empty() {
+        acc.nontrivial();
+    }
+    let case = || json!({"kind": "nextlarger", "n": n, "f": f, "mask": mask, "drop": drop, "reversed": reversed,
+        "edges": edges.iter().map(|(a, b)| format!("{}->{}", a.0, b.0)).collect::<Vec<_>>(), "exists": CODES[..n].iter().map(|c| exists(*c)).collect::<Vec<_>>()});
+    let r = catch(|| {
+        let (p, w) = NextLargerProgram::new(edges.clone().into_iter(), |c| exists(c.0), drop);
+        let chains: Vec<Vec<u8>> = probe.iter().map(|c| p.get(Char(*c)).take(300).map(|c| c.0).collect()).collect();
+        (chains, w)
+    });
+    let (chains, warnings) = match r {
+        Ok(v) => v,
+        Err(p) => {
+            acc.fail(idx, case(), "a program", p.describe(), "NextLargerProgram::new/get panicked");
+            return;
+        }
+    };
+    for ((c, want), got) in probe.iter().zip(&want).zip(&chains) {
+        if got.len() > 256 {
+            acc.fail(idx, case(), "a finite chain", format!("chain of {c} has more than 256 elements"), "next-larger chain is not finite");
+            return;
+        }
+        if want != got {
+            acc.fail(idx, case(), format!("chain({c}) = {want:?}"), format!("{got:?}"), "next-larger chain differs from TFtoPL §84 (links followed, cycle cut at its largest character)");
+            return;
+        }
+    }
+    let mut gw: Vec<NlWarning> = warnings
+        .iter()
+        .map(|w| match w {
+            NextLargerProgramWarning::NonExistentCharacter { original, next_larger } => NlWarning::NonExistent { original: original.0, next_larger: next_larger.0 },
+            NextLargerProgramWarning::InfiniteLoop { original, next_larger } => NlWarning::Cycle { original: original.0, next_larger: next_larger.0 },
+        })
+        .collect();
+    gw.sort();
+    mw.sort();
+    if gw != mw {
+        acc.fail(idx, case(), format!("{mw:?}"), format!("{gw:?}"), "warnings differ (compared as multisets)");
+        return;
+    }
+    acc.class(&format!("cycles={cycles} nonexistent={nonex} longest chain={}", want.iter().map(|c| c.len()).max().unwrap_or(0)));
+}
+
+fn nl_space(n: usize) -> Vec<u64> {
+    let mut r = vec![(n + 1) as u64; n];
+    r.push(1 << n.min(4)); // mask
+    r.push(2); // drop
+    r.push(2); // edge order
+    r
+}
+
+// ------------------------------------------------------------------------------------------------
+// model self-validation
+// ------------------------------------------------------------------------------------------------
+
+fn self_validate(ctx: &mut Ctx) {
+    // (1) fix_word text: values and texts of cmr10.tfm / cmr10.plst (TFtoPL output), crates/tfm/corpus/computer-modern
+    for (w, t) in [(0, "0.0"), (349526, "0.333334"), (174763, "0.166667"), (116509, "0.111112"), (451470, "0.430555"), (1048579, "1.000003"), (-291272, "-0.277779"), (-334963, "-0.319446"), (81557, "0.077779"), (10485760, "10.0")] {
+        if fix::print_fix(w) != t {
+            ctx.machinery_error(format!("model self-validation: print_fix({w}) = {} but TFtoPL printed {t}", fix::print_fix(w)));
+        }
+        if fix::parse_fix(t) != Ok(w as i64) {
+            ctx.machinery_error(format!("model self-validation: parse_fix({t}) = {:?}, expected {w}", fix::parse_fix(t)));
+        }
+    }
+    // pl/ast.rs test `character_..`: "R 10.55" -> FixWord(1055 * ONE / 100 + 1); "D -11.5", "R 18"
+    for (t, w) in [("10.55", 1055 * (1i64 << 20) / 100 + 1), (" -11.5", -23 * (1i64 << 19)), ("18", 18 << 20), ("1.5", 3 << 19), ("-0.25", -(1 << 18))] {
+        if fix::parse_fix(t) != Ok(w) {
+            ctx.machinery_error(format!("model self-validation: parse_fix({t:?}) = {:?}, expected {w}", fix::parse_fix(t)));
+        }
+    }
+    // whole corpus: every real that Knuth's TFtoPL printed parses (model) to a word of the TFM file and prints (model) back to the same text
+    let repo = std::env::var("VERIF_REPO").unwrap_or_else(|_| "/repo".into());
+    let mut reals = 0;
+    for name in ["cmr10", "cmex10", "cmsy7", "cmss8", "cminch"] {
+        let dir = format!("{repo}/crates/tfm/corpus/computer-modern");
+        let (Ok(tfm), Ok(pl)) = (std::fs::read(format!("{dir}/{name}.tfm")), std::fs::read_to_string(format!("{dir}/{name}.plst"))) else {
+            ctx.machinery_error(format!("model self-validation: cannot read {dir}/{name}.tfm/.plst"));
+            continue;
+        };
+        let h = |i: usize| u16::from_be_bytes([tfm[2 * i], tfm[2 * i + 1]]) as usize;
+        let (lh, bc, ec) = (h(1), h(2), h(3));
+        let tables_start = 24 + 4 * lh + 4 * (ec + 1 - bc);
+        let mut words: std::collections::BTreeSet<i64> = Default::default();
+        for k in (tables_start..tfm.len()).step_by(4) {
+            words.insert(i32::from_be_bytes([tfm[k], tfm[k + 1], tfm[k + 2], tfm[k + 3]]) as i64);
+        }
+        let ds = i32::from_be_bytes([tfm[28], tfm[29], tfm[30], tfm[31]]);
+        words.insert(ds as i64);
+        let mut rest = pl.as_str();
+        while let Some(i) = rest.find(" R ") {
+            rest = &rest[i + 3..];
+            let end = rest.find(')').unwrap_or(rest.len());
+            let t = rest[..end].trim();
+            reals += 1;
+            match fix::parse_fix(t) {
+                Ok(v) if words.contains(&v) && fix::print_fix(v as i32) == t => {}
+                other => ctx.machinery_error(format!("model self-validation: {name}.plst real {t:?}: model parse {other:?}, model print {:?}, word in {name}.tfm: {}", other.map(|v| fix::print_fix(v as i32)), other.map(|v| words.contains(&v)).unwrap_or(false))),
+            }
+        }
+        // (2) store_scaled: cmr10 at 10pt, the values TeX reports (The TeXbook p. 433; boxworks-text tests `glue(3.33333pt, 1.66666pt, 1.11111pt)`)
+        if name == "cmr10" {
+            for (w, pt) in [(349526, "3.33333"), (174763, "1.66666"), (116509, "1.11111"), (451470, "4.30554"), (1048579, "10.00002"), (0, "0.0")] {
+                let got = fix::store_scaled(w, ds).map(reftex::arith::print_scaled);
+                if got.as_deref() != Ok(pt) {
+                    ctx.machinery_error(format!("model self-validation: store_scaled({w}, 10pt) = {got:?}, TeX says {pt}pt"));
+                }
+            }
+        }
+    }
+    if reals < 1500 {
+        ctx.machinery_error(format!("model self-validation: only {reals} reals found in the corpus property lists"));
+    }
+    // lib.rs `to_scaled_test`
+    if fix::store_scaled(1 << 20, 1 << 20) != Ok(1 << 16) || fix::store_scaled(0, 1 << 20) != Ok(0) {
+        ctx.machinery_error("model self-validation: store_scaled(1.0, 1pt) != 1pt");
+    }
+    // (3) compress: the nine cases of lib.rs `compress_tests!` (values, limit, table without the leading zero, indices)
+    let one = 1i64 << 20;
+    let cases: Vec<(Vec<i64>, usize, Vec<i64>, Vec<usize>)> = vec![
+        (vec![], 1, vec![], vec![]),                                                        // no_op_0
+        (vec![one * 2, one], 2, vec![one, one * 2], vec![2, 1]),                            // no_op_2
+        (vec![one, one], 1, vec![one], vec![1, 1]),                                         // just_deduplication
+        (vec![one, one * 2], 1, vec![one * 3 / 2], vec![1, 1]),                             // simple_compression_case
+        (vec![one, one * 2, one * 200, one * 201], 2, vec![one * 3 / 2, one * 401 / 2], vec![1, 1, 2, 2]), // simple_compression_case_2
+        (vec![1, 3], 1, vec![2], vec![1, 1]),                                               // lower_upper_close_edge_case_1
+        (vec![0, 2], 1, vec![1], vec![1, 1]),                                               // .._2
+        (vec![1, 4], 1, vec![2], vec![1, 1]),                                               // .._3
+        (vec![1, 2], 1, vec![1], vec![1, 1]),                                               // .._4
+    ];
+    for (values, m, want, want_idx) in cases {
+        let s = fix::sorted_distinct(&values);
+        let c = fix::pltotf_compress(&s, m);
+        let idx: Vec<usize> = values.iter().map(|v| c.index[s.iter().position(|x| x == v).unwrap()]).collect();
+        if c.reps != want || idx != want_idx || Some(c.tolerance) != fix::min_tolerance(&s, m) {
+            ctx.machinery_error(format!("model self-validation: compress {values:?} limit {m}: model {c:?}, repository test expects {want:?} {want_idx:?}"));
+        }
+    }
+    // shorten (PLtoTF's search) against the brute force on every subset of 0..10 and two lattices
+    for lat in [(0..10).collect::<Vec<i64>>(), vec![0, 1, 3, 7, 8, 20, 21, 22, 50, 90]] {
+        for s in 1u32..1 << lat.len() {
+            let set: Vec<i64> = (0..lat.len()).filter(|i| s >> i & 1 == 1).map(|i| lat[i]).collect();
+            for m in 1..set.len() {
+                if Some(fix::shorten(&set, m)) != fix::min_tolerance(&set, m) {
+                    ctx.machinery_error(format!("model self-validation: shorten({set:?},{m}) = {} but brute force {:?}", fix::shorten(&set, m), fix::min_tolerance(&set, m)));
+                    return;
+                }
+            }
+        }
+    }
+    // (4) next larger: the four cases of lib.rs `next_larger_tests!`
+    type NlCase = (Vec<(u8, u8)>, Vec<(u8, Vec<u8>)>, Vec<NlWarning>);
+    let (a, b, c, x, y, z) = (b'A', b'B', b'C', b'X', b'Y', b'Z');
+    let mut nl: Vec<NlCase> = vec![
+        (vec![(a, a)], vec![(a, vec![])], vec![NlWarning::Cycle { original: a, next_larger: a }]), // same_node_loop
+        (
+            vec![(a, b), (b, c), (c, b), (x, y), (y, z), (z, x)],
+            vec![(a, vec![b, c]), (b, vec![c]), (c, vec![]), (x, vec![y, z]), (y, vec![z]), (z, vec![])],
+            vec![NlWarning::Cycle { original: c, next_larger: b }, NlWarning::Cycle { original: z, next_larger: x }],
+        ), // two_loops
+        (vec![(a, b), (b, c), (c, b)], vec![(a, vec![b, c]), (b, vec![c]), (c, vec![])], vec![NlWarning::Cycle { original: c, next_larger: b }]), // path_leading_to_loop
+    ];
+    nl.push(((0..=255u8).map(|u| (u, u.wrapping_add(1))).collect(), (0..=255u8).map(|u| (u, (u as u16 + 1..=255).map(|w| w as u8).collect())).collect(), vec![NlWarning::Cycle { original: 255, next_larger: 0 }])); // big_infinite_loop
+    // doc examples of NextLargerProgram: X->Y, Y->X broken at Y; X->Y with Y nonexistent, kept (PLtoTF) or dropped (TFtoPL)
+    nl.push((vec![(x, y), (y, x)], vec![(x, vec![y]), (y, vec![])], vec![NlWarning::Cycle { original: y, next_larger: x }]));
+    for (edges, seqs, warnings) in nl {
+        let mut link = [None; 256];
+        for (s, l) in &edges {
+            link[*s as usize] = Some(*l);
+        }
+        for (g, w) in [fix::next_larger(&link, &|_| true, true), fix::next_larger_by_definition(&link, &|_| true, true)] {
+            let mut w = w;
+            w.sort();
+            if w != warnings || seqs.iter().any(|(s, want)| &fix::chain(&g, *s) != want) {
+                ctx.machinery_error(format!("model self-validation: next larger {:?}: model warnings {w:?}, repository test expects {warnings:?}", &edges[..edges.len().min(6)]));
+            }
+        }
+    }
+    {
+        let mut link = [None; 256];
+        link[x as usize] = Some(y);
+        let ex = |c: u8| c != y;
+        let (g1, w1) = fix::next_larger(&link, &ex, false);
+        let (g2, w2) = fix::next_larger(&link, &ex, true);
+        let w = vec![NlWarning::NonExistent { original: x, next_larger: y }];
+        if w1 != w || w2 != w || fix::chain(&g1, x) != vec![y] || !fix::chain(&g2, x).is_empty() {
+            ctx.machinery_error("model self-validation: next larger doc example with a nonexistent character");
+        }
+    }
+    // the walk of TFtoPL §84 against the definition "cut the link out of the largest character of every cycle", all graphs on 5 nodes x masks
+    let radices = [6u64, 6, 6, 6, 6, 16];
+    for i in 0..vcore::product(&radices) {
+        let d = vcore::digits(i, &radices);
+        let exists_i = |k: usize| k >= 4 || d[5] >> k & 1 == 1;
+        if (0..5).any(|k| d[k] != 0 && !exists_i(k)) {
+            continue;
+        }
+        let mut link = [None; 256];
+        for k in 0..5 {
+            if d[k] != 0 {
+                link[CODES[k] as usize] = Some(CODES[d[k] as usize - 1]);
+            }
+        }
+        let ex = |c: u8| CODES[..5].iter().position(|x| *x == c).map(exists_i).unwrap_or(true);
+        for drop in [true, false] {
+            let (g1, mut w1) = fix::next_larger(&link, &ex, drop);
+            let (g2, mut w2) = fix::next_larger_by_definition(&link, &ex, drop);
+            w1.sort();
+            w2.sort();
+            if g1 != g2 || w1 != w2 {
+                ctx.machinery_error(format!("model self-validation: TFtoPL §84 walk and the cycle definition disagree on graph {d:?} drop={drop}"));
+                return;
+            }
+        }
+    }
+}
+
+// ------------------------------------------------------------------------------------------------
+// main
+// ------------------------------------------------------------------------------------------------
+
 fn main() {
-    eprintln!("c17: check not built yet");
-    std::process::exit(2);
+    let mut ctx = Ctx::new("C17", Level::Exploration);
+    ctx.assume("fix_word text: the pattern 0x80000000 prints as -2048.0, which the PL format cannot express (PLtoTF §62-64: 'Real constants must be less than 2048'); for it only 'no panic' is required and what the reader did is recorded as an outcome class");
+    ctx.assume("to_scaled: TeX's legal ranges are design size in [1pt, 2048pt) (TeX §568 aborts otherwise) and a value whose first byte is 0 or 255 (§571 aborts otherwise); pairs outside are not enumerated; the font is loaded at its design size");
+    ctx.assume("compress: values are legal font dimensions (|v| < 16.0, so sums of two values fit in 32 bits), limits 1..=255; 'within half the tolerance' is read as 2|v-rep| <= d when d is even and d+1 when d is odd (no integer midpoint exists)");
+    ctx.assume("compress: the property asks for the minimal tolerance, the class limit and the half-tolerance bound only. PLtoTF §78 additionally stops merging as soon as `excess` = n - limit values have been removed; whether the table equals PLtoTF's own is recorded as an outcome class, not judged");
+    ctx.assume("next larger: links leave existing characters only (TFtoPL §84 never visits a nonexistent character and PLtoTF §111 creates the target without a tag); warnings are compared as multisets (the callers key them by character)");
+    let tr = text_ranges(ctx.quick());
+    let vl = value_lattice();
+    let dl = design_lattice();
+    let sds = sweep_design_sizes(ctx.quick());
+    let lats = subset_lattices();
+
+    if let Some((_fam, case)) = ctx.replay_case() {
+        let mut acc = Acc::default();
+        replay(&case, &mut acc);
+        ctx.finish_replay(acc);
+    }
+    self_validate(&mut ctx);
+
+    // ---- part 1
+    {
+        let n = total(&tr);
+        let batches = n.div_ceil(BATCH);
+        let bounds = if ctx.quick() {
+            format!("{n} fix_word patterns: all |x| < 2^24 (= |value| < 16.0), +-4096 around +-2^k for k = 24..31, and the unit intervals at +-100, 999, 1000, 2046, 2047; {BATCH} per generated property list ({batches} lists)")
+        } else {
+            format!("all 2^32 fix_word patterns, {BATCH} per generated property list ({batches} lists)")
+        };
+        let tr = &tr;
+        ctx.family_ranges("fixword-text", &bounds, batches, |r, acc| {
+            let mut bits: Vec<u32> = Vec::with_capacity(BATCH as usize);
+            for b in r {
+                bits.clear();
+                let lo = b * BATCH;
+                let hi = (lo + BATCH).min(n);
+                if tr.len() == 1 {
+                    bits.extend((lo..hi).map(|k| (tr[0].0 + k) as u32));
+                } else {
+                    bits.extend((lo..hi).map(|k| nth(tr, k)));
+                }
+                check_fix_batch(b, &bits, acc);
+                if b % 50_021 == 3 {
+                    acc.sample(b, || json!({"fix_word": bits[0] as i32, "text": fix::print_fix(bits[0] as i32)}));
+                }
+            }
+        });
+    }
+    // ---- part 2
+    {
+        let (vl, dl) = (&vl, &dl);
+        let n = (vl.len() * dl.len()) as u64;
+        ctx.family("to-scaled-lattice", &format!("{} legal values (first byte 0/255, other bytes in {{0,1,2,15,16,127,128,129,254,255}}, cmr10 words) x {} design sizes (every multiple of 1/16 pt in [1,2048), +-{{0,1,15,16,17}} around 2^k, 1/5/10/12/17.28/127.99/2047.99 pt)", vl.len(), dl.len()), n, |i, acc| {
+            let x = vl[(i % vl.len() as u64) as usize];
+            let ds = dl[(i / vl.len() as u64) as usize];
+            check_scaled(i, x, ds, acc);
+            if i % 3_000_017 == 11 {
+                acc.sample(i, || json!({"x": x, "design_size": ds, "scaled": fix::store_scaled(x, ds).ok()}));
+            }
+        });
+        let sds = &sds;
+        let per = 1u64 << 25;
+        ctx.family_ranges("to-scaled-sweep", &format!("all 2^25 legal fix_word patterns (first byte 0 or 255) x design sizes {:?} (fix_word units)", sds), per * sds.len() as u64, |r, acc| {
+            for i in r {
+                let ds = sds[(i / per) as usize];
+                let k = i % per;
+                let x = if k < 1 << 24 { k as i32 } else { (0xff00_0000u32 | (k - (1 << 24)) as u32) as i32 };
+                check_scaled(i, x, ds, acc);
+            }
+        });
+    }
+    // ---- part 3
+    {
+        let maxlen = ctx.pick(5u32, 7u32);
+        let n = vcore::strings_upto(7, maxlen) - 1;
+        // one index per (sequence, limit): limit runs over 1..=maxlen, limits above the length are skipped
+        ctx.family("compress-sequences", &format!("every sequence (order and multiplicity kept) of 1..={maxlen} values over the lattice {LAT7:?} x every limit 1..=length"), n * maxlen as u64, |i, acc| {
+            let seq: Vec<i64> = vcore::nth_string(7, i / maxlen as u64 + 1).into_iter().map(|d| LAT7[d as usize]).collect();
+            let limit = (i % maxlen as u64 + 1) as usize;
+            if limit > seq.len() {
+                return; // not a case: the index space is rectangular for addressing only
+            }
+            check_compress(i, &seq, limit as u8, acc, &|| json!({"kind": "compress", "values": seq, "limit": limit}));
+        });
+        let bits = ctx.pick(14usize, 18usize);
+        let lats = &lats;
+        let per_subset = (bits * TRANSFORMS.len()) as u64;
+        let n = 2 * (1u64 << bits) * per_subset;
+        ctx.family("compress-subsets", &format!("every non-empty subset of the first {bits} points of two lattices (0..{bits}: every gap composition; Fibonacci numbers: spread-out gaps) x every limit 1..=|S| x affine maps v -> s*v+o for (s,o) in {TRANSFORMS:?}"), n, |i, acc| {
+            let d = vcore::digits(i, &[2, 1 << bits, bits as u64, TRANSFORMS.len() as u64]);
+            let set: Vec<i64> = (0..bits).filter(|k| d[1] >> k & 1 == 1).map(|k| lats[d[0] as usize][k]).collect();
+            let limit = d[2] as usize + 1;
+            if set.is_empty() || limit > set.len() {
+                return;
+            }
+            let (s, o) = TRANSFORMS[d[3] as usize];
+            let values: Vec<i64> = set.iter().map(|v| s * v + o).collect();
+            check_compress(i, &values, limit as u8, acc, &|| json!({"kind": "compress", "values": values, "limit": limit}));
+            if i % 1_000_003 == 5 {
+                acc.sample(i, || json!({"values": values, "limit": limit, "min_tolerance": fix::min_tolerance(&fix::sorted_distinct(&values), limit)}));
+            }
+        });
+        let limits = [15u8, 63, 255];
+        let sizes: Vec<u64> = if ctx.quick() { vec![256, 257, 270, 299, 300] } else { (256..=300).collect() };
+        let sz = &sizes;
+        ctx.family("compress-large", &format!("{SHAPES} deterministic families (progressions, clusters, scattered, powers of two, parabola ...) of n values for n in {} x limits 15, 63, 255", if ctx.quick() { "{256,257,270,299,300}".to_string() } else { "256..=300".to_string() }), SHAPES * sz.len() as u64 * 3, |i, acc| {
+            let d = vcore::digits(i, &[SHAPES, sz.len() as u64, 3]);
+            let values = large_family(d[0], sz[d[1] as usize]);
+            let limit = limits[d[2] as usize];
+            check_compress(i, &values, limit, acc, &|| json!({"kind": "compress-large", "shape": d[0], "n": sz[d[1] as usize], "limit": limit}));
+        });
+    }
+    // ---- part 4
+    {
+        let nmax = ctx.pick(6usize, 7usize);
+        for n in 1..=nmax {
+            let radices = nl_space(n);
+            ctx.family(&format!("nextlarger-{n}"), &format!("every partial functional graph on {n} characters (codes {:?}), every 'character exists' mask on the first {} of them, TFtoPL (drop) and PLtoTF (keep) mode, edges given in ascending and descending order", &CODES[..n], n.min(4)), vcore::product(&radices), |i, acc| {
+                let d = vcore::digits(i, &radices);
+                check_next_larger(i, n, &d[..n], d[n], d[n + 1] == 1, d[n + 2] == 1, acc);
+                if i % 400_009 == 9 {
+                    acc.sample(i, || json!({"n": n, "f": &d[..n], "mask": d[n]}));
+                }
+            });
+        }
+    }
+    ctx.require("seven_digit_fraction", "a fix_word whose text needs a 7th fraction digit (the only texts that reach the rounding branch `delta > 2^20` of TFtoPL §42)");
+    ctx.require("negative_with_fraction", "a negative fix_word with a non-zero fraction (borrow in TFtoPL §43)");
+    ctx.require("beyond_16", "a fix_word of magnitude >= 16.0 (integer parts of 2-4 digits)");
+    ctx.require("scaled_negative_value", "store_scaled with first byte 255 (sw - alpha)");
+    ctx.require("scaled_z_normalised", "design size >= 128pt, so the loop of TeX §572 halves z");
+    ctx.require("compression_needed", "more distinct values than the limit");
+    ctx.require("tolerance_odd", "an odd minimal tolerance (midpoint rounding matters)");
+    ctx.require("pltotf_excess_rule_matters", "PLtoTF's `excess` counter would stop merging before the greedy cover is complete");
+    ctx.require("duplicates_in_input", "the input repeats a value");
+    ctx.require("nl_cycle", "the graph has a cycle");
+    ctx.require("nl_two_cycles", "the graph has two cycles");
+    ctx.require("nl_nonexistent_target", "a link points to a nonexistent character");
+    ctx.require("nl_path_into_cut_cycle", "a chain runs into a cycle that was cut");
+    ctx.finish("fix_word text: every pattern of the stated ranges, printed and read back inside generated property lists (non-trivial = non-zero fraction); to_scaled: lattice + full sweep of the legal patterns (non-trivial = more than one significant byte); compress: every sequence/subset x limit (non-trivial = more distinct values than the limit); next larger: every partial functional graph x existence mask (non-trivial = a chain of length >= 2 or a warning)");
+}
+
+fn replay(case: &Value, acc: &mut Acc) {
+    let u = |k: &str| case[k].as_u64().unwrap_or(0);
+    match case["kind"].as_str() {
+        Some("fixbatch") => {
+            let first = u("first") as u32;
+            let bits: Vec<u32> = (0..u("count")).map(|k| first.wrapping_add(k as u32)).collect();
+            // batches are runs of consecutive patterns except where a quick-tier range ends; replay the
+            // failing value alone as well
+            check_fix_batch(0, &bits, acc);
+            if let Some(b) = case["bits"].as_u64() {
+                check_fix_batch(0, &[b as u32], acc);
+            }
+        }
+        Some("scaled") => check_scaled(0, case["x"].as_i64().unwrap_or(0) as i32, case["design_size"].as_i64().unwrap_or(0) as i32, acc),
+        Some("compress") => {
+            let values: Vec<i64> = case["values"].as_array().map(|a| a.iter().filter_map(|v| v.as_i64()).collect()).unwrap_or_default();
+            check_compress(0, &values, u("limit") as u8, acc, &|| case.clone());
+        }
+        Some("compress-large") => {
+            let values = large_family(u("shape"), u("n"));
+            check_compress(0, &values, u("limit") as u8, acc, &|| case.clone());
+        }
+        Some("nextlarger") => {
+            let f: Vec<u64> = case["f"].as_array().map(|a| a.iter().filter_map(|v| v.as_u64()).collect()).unwrap_or_default();
+            check_next_larger(0, u("n") as usize, &f, u("mask"), case["drop"].as_bool().unwrap_or(true), case["reversed"].as_bool().unwrap_or(false), acc);
+        }
+        _ => {
+            eprintln!("replay: unknown case kind");
+            std::process::exit(2);
+        }
+    }
+    let _: BTreeMap<(), ()> = BTreeMap::new();
 }
